@@ -55,7 +55,7 @@ def selective_cfgs(fields, rng):
 def eager_cfgs(ns):
     db = ns.split(".")[0]
     # prefixes are raw string prefixes of attr.ns: whole namespace, database, database with its dot, cut inside a component
-    return [Cfg(eager=(ns,)), Cfg(eager=(db,), w=True), Cfg(eager=("nomatch." + ns, ""), n=True), Cfg(eager=("zzz",)),
+    return [Cfg(eager=(db, ns)), Cfg(eager=(db + ".zzz", db, db + ".aaa")), Cfg(eager=(ns, db)), Cfg(eager=(ns,)), Cfg(eager=(db,), w=True), Cfg(eager=("nomatch." + ns, ""), n=True), Cfg(eager=("zzz",)),
             Cfg(eager=(db + ".",), w=True), Cfg(eager=(ns[:-1],), w=True), Cfg(eager=(db[:-1],), w=True, n=True), Cfg(eager=(ns[:-2], "q"))]
 
 
@@ -70,7 +70,7 @@ def line_ops(seed, count, exotic=True, prefix="L"):
         text = to_json(tree)
         cfgs = [PRESETS[(i + j) % len(PRESETS)] for j in range(2)]
         cfgs += selective_cfgs(g.fields, rng)[: 1 + i % 2]
-        cfgs += eager_cfgs(g.ns)[i % 8: i % 8 + 1]
+        cfgs += eager_cfgs(g.ns)[i % 11: i % 11 + 1]
         for j, c in enumerate(cfgs):
             oid = "%s%d.%d" % (prefix, i, j)
             ops.append((oid, ["line", cfg_str(c, tree), hx(text)]))
@@ -324,6 +324,15 @@ def stream_ops(seed, count, prefix="R"):
                 lines.append(rng.choice([b"not json", b"[1,2]", b'{"a":1} x', b'{"trunc":']))
             else:
                 lines.append(b'{"a":"' + b"y" * rng.choice([10, 65520, 65527, 65528, 65529, 65530, 70000]) + b'"}')
+        if rng.chance(1, 5):
+            # consecutive lines of EQUAL byte length between 2 KiB and 8 KiB with different contents
+            n_ = rng.choice([2049, 3000, 4095, 4096, 4097, 8000])
+            for q_ in range(3):
+                lines.append(b'{"c":"COMMAND","ctx":"conn%d","attr":{"command":{"find":"c","filter":{"a":"' % q_ + bytes([97 + q_]) * n_ + b'"}}}}')
+        if rng.chance(1, 6):
+            lines.insert(rng.below(len(lines) + 1), rng.choice([b'{"c":"COMMAND","attr":{"command":{"find":"c","filter":{"p":"C:\\\\Users\\\\bob\\\\"}}}}', b'{"a":"x\\\\","b":"{"}']))
+        if rng.chance(1, 8):
+            lines.insert(0, rng.choice([b"\x1f\x8b junk that is not gzip", b"\x1f\x8b", b"\x1f\x8b\x08\x00"]))
         if rng.chance(1, 3):
             # the same entry twice in a row (and once more at the end): every occurrence is a line of its own
             j = rng.below(len(lines))
